@@ -21,7 +21,7 @@ import vlib
 ROLE = {"A": "registry", "B": "registry", "M": "mirror"}
 TOKEN_HOSTS = {"Ta", "Tb", "Tm", "X"}
 KEEP = {"msg": ("to", "scheme", "owners"), "challenge": ("from", "realm"), "log": ("owners",),
-        "logdone": (), "redirect": (), "location": (), "done": ()}
+        "errout": ("owners",), "logdone": (), "redirect": (), "location": (), "done": ()}
 
 
 def load_jsonl(fn):
@@ -74,6 +74,9 @@ def signature(trace, idx, bad, after_o1=False):
     through a handler keyed by a foreign host, so what follows is a consequence of that)."""
     events, conf = trace["events"], trace["scenario"].get("conf", {})
     ev = events[idx]
+    if bad.startswith("O3") and ev["ev"] == "errout":
+        kinds = "+".join(sorted(set(secret_kinds(ev.get("what", ""), o) for o in ev["owners"])))
+        return "O3:%s:returned-error" % kinds
     if bad.startswith("O3"):
         m = re.search(r'"msg":"([^"]*)"|msg="([^"]*)"|msg=(\S+)', ev.get("line", ""))     # JSON / text handler
         name = (m.group(1) or m.group(2) or m.group(3)) if m else "?"
@@ -153,7 +156,8 @@ PROBES = [
 # assigned round robin so that every combination meets every TLC configuration many times.
 REPLAY_DIMS = [("src", ["", "docker", "helper"]),           # credentials from config.Host / docker config.json / helper
                ("naming", ["", "", "ip", "alias"]),         # host names (with conf.ports: host:port) / IPs / Name != Hostname
-               ("logfmt", ["", "json"])]                    # slog text / JSON handler
+               ("logfmt", ["", "json"]),                    # slog text / JSON handler
+               ("tokshape", ["exp", "iat", "trunc", "html", "huge"])]   # undecodable 200 token responses
 
 
 def assign_replay_dims(scns, seed):
@@ -433,7 +437,7 @@ def run(ctx):
     if not ctx.replay:
         try:
             binding_demo(ctx, clean)
-            demo = "4 corrupted copies of accepted traces rejected at the corrupted event"
+            demo = "5 corrupted copies of accepted traces rejected at the corrupted event"
         except NoDemoBase as e:
             # when (nearly) every trace is rejected there is nothing accepted to corrupt; the
             # rejections themselves are then the result of this run
@@ -527,6 +531,12 @@ def binding_demo(ctx, clean):
     m = copy.deepcopy(t)
     m["events"].insert(i, {"ev": "log", "owners": ["A"]})
     m["id"] = "demo-log"
+    demos.append((m, i))
+    # a secret in the error returned to the caller
+    t, i = find(lambda t, i, e: e["ev"] == "errout" and not e["owners"])
+    m = copy.deepcopy(t)
+    m["events"][i]["owners"] = ["A"]
+    m["id"] = "demo-error"
     demos.append((m, i))
     for m, at in demos:
         a, rj = ctx.validate_batch("AuthTrace", "C11_trace.cfg", [m])
